@@ -1,4 +1,4 @@
-\* thorough: ExtendedLSR of 1..2 terms with four given parts, <= 3 calls
+\* thorough: exhaustive design model, ExtendedLSR of 1..2 terms over 6 reactions, <= 2 calls
 SPECIFICATION Spec
 CONSTANTS
   Slopes <- MCSlopes2
@@ -6,11 +6,11 @@ CONSTANTS
   Energies <- MCEnergies2
   Temps = {250, 500}
   MaxN = 2
-  MaxOps = 3
+  MaxOps = 2
   Variant = "required"
   Kinds = {"ext"}
   Stoichs = {2}
-  ExtParts <- MCExtPartsBig
+  ExtParts <- MCExtParts
 INVARIANT NeverRaises
 INVARIANT RelationHolds
 INVARIANT FourEqual
